@@ -35,14 +35,18 @@ def raise_site(exc) -> str:
     """module.function of the innermost onnx_ir frame that raised (mechanism-level, seed-independent)."""
     tb = exc.__traceback__
     site = "?"
+    collaborator = False
     while tb is not None:
         code = tb.tb_frame.f_code
         fn = code.co_filename.replace("\\", "/")
         if "/onnx_ir/" in fn:
             mod = fn.rsplit("/onnx_ir/", 1)[1].rsplit(".py", 1)[0].replace("/", ".")
             site = f"{mod}.{code.co_qualname if hasattr(code, 'co_qualname') else code.co_name}"
+            collaborator = False
+        elif fn.endswith("/vfpy/world.py") and "PickyTensor" in getattr(code, "co_qualname", code.co_name):
+            collaborator = True  # raised by the harness's validating tensor class, called from `site`
         tb = tb.tb_next
-    return site
+    return site + ("<-collaborator" if collaborator else "")
 
 
 def signature(clauses, ops, results) -> str:
